@@ -192,6 +192,8 @@ CANARIES = [
      'old': "                if not self.skip_func(ret):\n                    break", 'new': "                if not self.skip_func(ret):\n                    continue"},
     {'name': 'call: kwargs evaluated before args', 'module': 'core', 'only': ['core.Call'], 'expect': ['core.Call'],
      'old': "        return r(self.func)(*r(self.args), **r(self.kwargs))", 'new': "        kw = r(self.kwargs)\n        return r(self.func)(*r(self.args), **kw)"},
+    {'name': 'Pipe.__init__: first step dropped', 'module': 'core', 'only': ['core.Pipe.__init__'], 'expect': ['core.Pipe.__init__'], 'old': '    def __init__(self, *steps):\n        self.steps = steps\n', 'new': '    def __init__(self, *steps):\n        self.steps = steps[::-1]\n'},
+    {'name': 'Invoke.constants: kwargs registry shared', 'module': 'core', 'only': ['core.Invoke.constants'], 'expect': ['core.Invoke.constants'], 'old': '        ret._cur_kwargs = dict(self._cur_kwargs)\n        ret._cur_kwargs.update({k: kw for k, _ in kw.items()})', 'new': '        ret._cur_kwargs = self._cur_kwargs\n        ret._cur_kwargs.update({k: kw for k, _ in kw.items()})'},
 ]
 
 from contracts import native as _n
